@@ -220,7 +220,8 @@ class ExperimentalValueArray(np.ndarray):
 
     def __array_finalize__(self, obj):
         """wrap up array initialization"""
-        if obj is None or not (self.shape and isinstance(self[0], dt.ExperimentalValue)):
+        if obj is None or not (
+                self.shape and self.size and isinstance(self[0], dt.ExperimentalValue)):
             return  # Skip if this is not a regular array of ExperimentalValue objects
         if hasattr(obj, "name"):
             name = getattr(obj, "name", "")
@@ -239,7 +240,7 @@ class ExperimentalValueArray(np.ndarray):
         the items in this array will be named "length_0", "length_1", "length_2", ...
 
         """
-        return re.sub(r"_[0-9]+$", "", self[0].name)
+        return re.sub(r"_[0-9]+$", "", self[0].name) if self.size else ""
 
     @name.setter
     def name(self, new_name: str):
@@ -256,7 +257,7 @@ class ExperimentalValueArray(np.ndarray):
         the same unit, which, when assigned, is given too all the items of the array.
 
         """
-        return self[0].unit
+        return self[0].unit if self.size else ""
 
     @unit.setter
     def unit(self, unit_string: str):
